@@ -38,10 +38,10 @@ def showIntList (l : List Int) : String :=
 /-- inverse of the harness's `encS`: "~" is the empty string, %20 %25 %7E are escapes -/
 def decS (s : String) : String :=
   if s == "~" then "" else
-  ((s.replace "%20" " ").replace "%7E" "~").replace "%25" "%"
+  ((((s.replace "%20" " ").replace "%7E" "~").replace "%0A" "\n").replace "%09" "\t").replace "%25" "%"
 def encS (s : String) : String :=
   if s == "" then "~" else
-  ((s.replace "%" "%25").replace " " "%20").replace "~" "%7E"
+  ((((s.replace "%" "%25").replace " " "%20").replace "~" "%7E").replace "\n" "%0A").replace "\t" "%09"
 
 def bool01 (b : Bool) : String := if b then "1" else "0"
 
